@@ -102,14 +102,37 @@ theorem inv_wIds (c : Cfg) (s s' : St) (i : Nat) (h : Inv s) (hs : step c s (.wI
       obtain ⟨d, hd, ht⟩ := h5 t ls hm l hl
       exact ⟨d, e.get hd, ht⟩
 
+theorem ext_same (a b : Sh) (h1 : b.ids = a.ids) (h2 : b.all = a.all) (h3 : b.tok = a.tok) (h4 : b.pos = a.pos)
+    (h5 : b.blocks = a.blocks) (h6 : b.range = a.range) (h7 : b.submitted = a.submitted) : Ext a b :=
+  ⟨⟨[], by simp [h1]⟩, fun l h => by rw [h2]; exact h, fun t l h => by rw [h3]; exact h,
+    fun id p h => by rw [h4]; exact h, by rw [h5]; exact Nat.le_refl _, fun m h => by rw [h6]; exact h,
+    fun d h => by rw [h7]; exact h⟩
+
+theorem shinv_same (a b : Sh) (h : ShInv a) (h1 : b.ids = a.ids) (h2 : b.all = a.all) (h3 : b.tok = a.tok)
+    (h4 : b.pos = a.pos) (h5 : b.blocks = a.blocks) (h7 : b.submitted = a.submitted) : ShInv b :=
+  ⟨by rw [h1, h2]; exact h.allLt, by rw [h1, h3]; exact h.tokOk, by rw [h4, h5]; exact h.posOk,
+    by rw [h1, h4]; exact h.idsPos, by rw [h1, h7]; exact h.idsSub⟩
+
+theorem inv_wTokGet (c : Cfg) (s s' : St) (i : Nat) (h : Inv s) (hs : step c s (.wTokGet i) = some s') : Inv s' := by
+  simp only [step] at hs
+  split at hs <;> cases hs
+  rename_i hpc
+  obtain ⟨h1, h2, h3, h4, h5⟩ := h.ws i
+  apply inv_of_writer s i _ _ h
+  · exact ext_same _ _ rfl rfl rfl rfl rfl rfl rfl
+  · exact shinv_same _ _ h.sh rfl rfl rfl rfl rfl rfl
+  · exact ⟨fun _ d hd => h1 (by simp [hpc.1]) d hd, fun _ _ => h2 (by simp [hpc.1]) (by simp [hpc.1]),
+      fun _ _ _ d hd => h3 (by simp [hpc.1]) (by simp [hpc.1]) (by simp [hpc.1]) d hd,
+      fun _ _ _ _ k d hd => h4 (by simp [hpc.1]) (by simp [hpc.1]) (by simp [hpc.1]) (by simp [hpc.1]) k d hd, h5⟩
+
 theorem inv_wToks (c : Cfg) (s s' : St) (i : Nat) (h : Inv s) (hs : step c s (.wToks i) = some s') : Inv s' := by
   simp only [step] at hs
   split at hs <;> cases hs
   rename_i hpc
   obtain ⟨h1, h2, h3, h4, h5⟩ := h.ws i
-  have := inv_of_writer s i s.sh { s.ws i with pc := .queue, todo := queueCalls c.allLast (s.ws i).toks (s.ws i).docs (s.ws i).base } h
-    (Ext.refl _) h.sh ?_
-  · exact this
+  apply inv_of_writer s i _ _ h
+  · exact ext_same _ _ rfl rfl rfl rfl rfl rfl rfl
+  · exact shinv_same _ _ h.sh rfl rfl rfl rfl rfl rfl
   · refine ⟨fun _ d hd => h1 (by simp [hpc]) d hd, fun _ _ => h2 (by simp [hpc]) (by simp [hpc]),
       fun _ _ _ d hd => h3 (by simp [hpc]) (by simp [hpc]) (by simp [hpc]) d hd,
       fun _ _ _ _ k d hd => h4 (by simp [hpc]) (by simp [hpc]) (by simp [hpc]) (by simp [hpc]) k d hd, ?_⟩
@@ -307,8 +330,10 @@ theorem inv_rLeaf (c : Cfg) (s s' : St) (i : Nat) (h : Inv s) (hs : step c s (.r
         · exact hr.got t' ls hm l hl
         · simp only [List.mem_singleton, Prod.mk.injEq] at hm
           obtain ⟨rfl, rfl⟩ := hm
-          simp only [List.mem_filter, Bool.and_eq_true, decide_eq_true_eq, List.contains_eq_mem] at hl
-          exact ⟨hl.1, hl.2.2⟩
+          split at hl
+          · simp only [List.mem_filter, Bool.and_eq_true, decide_eq_true_eq, List.contains_eq_mem] at hl
+            exact ⟨hl.1, hl.2.2⟩
+          · cases hl
       all_goals simp_all
   · cases hs
 
@@ -381,6 +406,7 @@ theorem inv_step (c : Cfg) (s : St) (l : Label) (s' : St) (h : Inv s) (hs : step
   | wBlock i => exact inv_wBlock c s s' i h hs
   | wPos i => exact inv_wPos c s s' i h hs
   | wIds i => exact inv_wIds c s s' i h hs
+  | wTokGet i => exact inv_wTokGet c s s' i h hs
   | wToks i => exact inv_wToks c s s' i h hs
   | wQueue i => exact inv_wQueue c s s' i h hs
   | wStats i => exact inv_wStats c s s' i h hs
